@@ -30,6 +30,13 @@ SPEC = {
                    "the state word, pointer, current mapping, persisted total and closed mappings are compared "
                    "with the model run on the same schedule. distinct = distinct scenario+schedule+observation "
                    "lines; all are non-trivial (>= 2 threads)"),
+        Suite(name="reg", harness="vh_reg", runner="reg",
+              model_deps=["theories/Model/Register.vo"],
+              quick_n=300, thorough_n=5000, rewrite=rewrite_counter_imports, tags="verif,verifconc",
+              rule="each case: 2-5 goroutines calling the real file.register on 1-3 counters (several may register "
+                   "the same counter) under the deterministic scheduler, one atomic operation per step, on a random "
+                   "schedule, plus every schedule with <= 2 (thorough: 3) forced context switches of four fixed "
+                   "configurations; head and every next pointer compared with Model/Register after every step"),
     ],
     "technique": "Coq inductive invariant over all schedules of any number of threads (transition system at "
                  "atomic-operation granularity) + lock-step differential execution of the extracted model against "
@@ -42,8 +49,8 @@ SPEC = {
                   "internal/counter under a deterministic scheduler in lock step with the extracted model.",
     "level_note": "Trusted: Coq kernel+VM, extraction, OCaml glue, the scheduler/atomic/mutex shims (they define what "
                   "one atomic step is; sequential consistency, which sync/atomic guarantees), the import rewrite of "
-                  "the scratch copy, the harness. Modelled not verified: registration of the counter in the lock-free "
-                  "list (harness pre-registers), critical sections under file.mu are one step, the file-level protocol "
+                  "the scratch copy, the harness. Modelled not verified: in the word protocol the counter is pre-registered (the lock-free "
+                  "registration list has its own model, theorems and lock-step suite), critical sections under file.mu are one step, the file-level protocol "
                   "inside lookup (C04), timers, the self-triggered extension inside a lookup. 'no fault' is refuted "
                   "(known finding use-after-unmap) and only characterised; bounded-steps/lock-freedom is not proved.",
     "assumptions": [
